@@ -114,7 +114,7 @@ struct CoreEngine : Engine {
                     VIOL("C03", "C03:errno-changes-deliveries", "module slot %d receives events only when callbacks leave errno set", kv.first);
             sim::run_end();
         }
-        if (has_loop && p.gets("mode") == "blocking" && !has_errno) {
+        if (has_loop && p.gets("mode") == "blocking") {
             // dispatch calls must produce the same deliveries as the blocking loop (no time costs, no injected EINTR: both walk the same ready sets)
             sim::Config c = cfg_from(p, false);
             c.cost_ns = 0; c.eintr_p = 0; c.timer_late_ns = 0;
